@@ -51,7 +51,7 @@ func isSQLWrite(f *types.Func) bool {
 }
 
 func checkC09(r *core.Run) {
-	r.Explain = "Decided statically: (C09.all) every UndoExecutor.ExecuteOn the holder can return reaches its first compensating statement (Prepare/Exec on the connection) only after dataValidationAndGoOn answered (true, nil), and returns without writing when it answers false; (C09.threeway) inside the validation (true,nil) is returned only when validation is disabled or equals(after, current); equals(before, after) or equals(before, current) yield (false,nil); everything else is a non-nil error; errors of IsRecordsEquals / the current-row query propagate; (C09.status) with C01.status that error reaches BranchRollback as a failure status and the undo transaction is rolled back (C01.tx), so neither rows nor undo log are touched. NOT decided: the row/field equality itself for all values and histories."
+	r.Explain = "Decided statically: (C09.all) every UndoExecutor.ExecuteOn the holder can return reaches its first compensating statement (Prepare/Exec on the connection) only after dataValidationAndGoOn answered (true, nil), and returns without writing when it answers false; (C09.threeway) inside the validation (true,nil) is returned only when validation is disabled or equals(after, current); equals(before, after) or equals(before, current) yield (false,nil); everything else is a non-nil error; errors of IsRecordsEquals / the current-row query propagate; (C09.status) with C01.status that error reaches BranchRollback as a failure status and the undo transaction is rolled back (C01.tx), so neither rows nor undo log are touched. (C09.equal) structural part of the equality: in the records/rows comparison a field or nested comparison that answers 'not equal' makes the whole answer false, and the value normaliser of the field equality (the function answering (float64, true)) accepts numeric reflect kinds only, so strings, byte slices and times are compared exactly. NOT decided: the remaining value semantics of the equality (floating-point comparison of 64-bit integers beyond 2^53, see C08's BIGINT finding) and the histories."
 	r.Trusted = []string{"go/types, go/cfg", "database/sql"}
 	w := r.W
 	u := resolveUndoWorld(r, "C09.anchor")
@@ -187,6 +187,12 @@ func checkC09(r *core.Run) {
 		fns = append(fns, f)
 	}
 	errDiscipline(r, "C09.threeway", dedupFns(fns), c01Idioms)
+	if eqFn != nil {
+		c09Equal(r, w.Info(eqFn))
+	} else {
+		r.Anchor("C09.equal", nil, "records equality function called by the validation")
+	}
+	r.Floor("C09.equal", 3)
 	// ---- C09.status (shared with C01)
 	c01StatusAs(r, u, "C09.status")
 	c01Tx(r, u, "C09")
@@ -364,4 +370,142 @@ func checkC10(r *core.Run) {
 
 func itoa(i int) string {
 	return strings.TrimSpace(strings.Replace(constant.MakeInt64(int64(i)).String(), " ", "", -1))
+}
+
+// c09Equal: structure of the equality used by the three-way check.
+func c09Equal(r *core.Run, eq *core.FuncInfo) {
+	w := r.W
+	if eq == nil {
+		r.Anchor("C09.equal", nil, "records equality function")
+		return
+	}
+	boolFirst := func(f *types.Func) bool {
+		if f == nil {
+			return false
+		}
+		res := f.Type().(*types.Signature).Results()
+		if res.Len() == 0 {
+			return false
+		}
+		b, ok := res.At(0).Type().Underlying().(*types.Basic)
+		return ok && b.Kind() == types.Bool
+	}
+	seen := map[*core.FuncInfo]bool{}
+	var leaves []*core.FuncInfo
+	var walk func(f *core.FuncInfo, d int)
+	walk = func(f *core.FuncInfo, d int) {
+		if f == nil || seen[f] || d > 3 {
+			return
+		}
+		seen[f] = true
+		r.Fn(f)
+		sp := &flow.Spec{W: w, Depth: 0, Split: []flow.Tag{"false:eq"}, Classify: func(pkg *packages.Package, call *ast.CallExpr, callee *types.Func) []flow.Tag {
+			if callee != nil && w.Info(callee) != nil && boolFirst(callee) && strings.Contains(callee.Pkg().Path(), "/pkg/datasource/sql") && len(call.Args) >= 2 {
+				return []flow.Tag{"eq"}
+			}
+			return nil
+		}}
+		res := sp.Analyze(f)
+		nested := false
+		for _, cp := range res.Calls {
+			if inSet("eq", cp.Tags...) {
+				nested = true
+				walk(w.Info(cp.Callee), d+1)
+			}
+		}
+		if !nested {
+			leaves = append(leaves, f)
+			return
+		}
+		info := f.Pkg.TypesInfo
+		for _, ex := range res.Exits {
+			if !ex.St.Has("false:eq") || len(ex.Results) == 0 {
+				continue
+			}
+			r.Sites++
+			v := core.ConstVal(info, ex.Results[0])
+			r.Check(v != nil && v.Kind() == constant.Bool && !constant.BoolVal(v), "C09.equal", core.ShortKey(f.Obj)+" a differing field makes the records unequal", w.Pos(ex.Pos),
+				"returns false after a nested comparison answered false", "after a field/row comparison answered 'not equal' the function does not return false: a foreign change would be taken for the after image and overwritten by the undo")
+		}
+	}
+	walk(eq, 0)
+	// the leaf equality: its normaliser answers (x, true) for numeric kinds only
+	numeric := map[string]bool{"Int": true, "Int8": true, "Int16": true, "Int32": true, "Int64": true, "Uint": true, "Uint8": true, "Uint16": true, "Uint32": true, "Uint64": true, "Uintptr": true, "Float32": true, "Float64": true}
+	for _, leaf := range leaves {
+		cands := []*core.FuncInfo{leaf}
+		for _, cs := range w.Calls(leaf) {
+			if fi := w.Info(cs.Static); fi != nil {
+				cands = append(cands, fi)
+			}
+		}
+		for _, f := range dedupFns(cands) {
+			sig := f.Obj.Type().(*types.Signature)
+			if sig.Results().Len() != 2 || sig.Results().At(0).Type().String() != "float64" || !boolFirst2(sig) {
+				continue
+			}
+			r.Fn(f)
+			info := f.Pkg.TypesInfo
+			var stack []ast.Node
+			ast.Inspect(f.Decl.Body, func(n ast.Node) bool {
+				if n == nil {
+					stack = stack[:len(stack)-1]
+					return true
+				}
+				stack = append(stack, n)
+				rs, ok := n.(*ast.ReturnStmt)
+				if !ok || len(rs.Results) != 2 {
+					return true
+				}
+				if v := core.ConstVal(info, rs.Results[1]); v != nil && v.Kind() == constant.Bool && !constant.BoolVal(v) {
+					return true
+				}
+				// the enclosing case clause of a switch over reflect.Value.Kind()
+				var labels []string
+				found := false
+				for i := len(stack) - 1; i >= 0 && !found; i-- {
+					cc, ok := stack[i].(*ast.CaseClause)
+					if !ok || i < 2 {
+						continue
+					}
+					sw, ok := stack[i-2].(*ast.SwitchStmt)
+					if !ok || sw.Tag == nil {
+						continue
+					}
+					if c, ok := ast.Unparen(sw.Tag).(*ast.CallExpr); !ok || core.Callee(info, c) == nil || core.Callee(info, c).Name() != "Kind" {
+						continue
+					}
+					found = true
+					if cc.List == nil {
+						labels = append(labels, "default")
+					}
+					for _, l := range cc.List {
+						if c := core.ConstObj(info, l); c != nil {
+							labels = append(labels, c.Name())
+						} else {
+							labels = append(labels, core.ExprString(l))
+						}
+					}
+				}
+				r.Sites++
+				key := core.ShortKey(f.Obj) + " normalises " + strings.Join(labels, ",")
+				if !found {
+					r.Bad("C09.equal", core.ShortKey(f.Obj)+" normalises outside a switch over the value's kind", w.Pos(rs.Pos()), "a value is normalised to float64 for comparison without its kind having been established as numeric")
+					return true
+				}
+				var bad []string
+				for _, l := range labels {
+					if !numeric[l] {
+						bad = append(bad, l)
+					}
+				}
+				r.Check(len(bad) == 0, "C09.equal", key, w.Pos(rs.Pos()), "numeric kinds only", "values of kind "+strings.Join(bad, ",")+" are compared after conversion to float64: different texts that parse to the same number ('00777' / '777') count as equal, so a foreign write is taken for the after image and overwritten")
+				return true
+			})
+		}
+	}
+}
+
+func boolFirst2(sig *types.Signature) bool {
+	b, ok := sig.Results().At(1).Type().Underlying().(*types.Basic)
+	return ok && b.Kind() == types.Bool
 }
